@@ -9,6 +9,7 @@ import (
 	"testing"
 	"time"
 
+	"gitlab.com/gomidi/midi/v2/drivers"
 	"gitlab.com/gomidi/midi/v2/zverif/cable"
 	"gitlab.com/gomidi/midi/v2/zverif/ev"
 	"gitlab.com/gomidi/midi/v2/zverif/faultio"
@@ -169,4 +170,142 @@ var encoder = ev.NewCheck("C19", "driver-encoder",
 func TestPropDriverEncoder(t *testing.T) {
 	defer closeEnv()
 	encoder.Rapid(t, 150, 3000)
+}
+
+// ---- the decoder side inside the driver: what the in-port hands to a listener --------------------
+
+// DecCase: records the helper of an in-port prints, one line each.
+type DecCase struct {
+	Recs []DecRec
+}
+
+type DecRec struct {
+	TS  int32
+	Msg ev.Hex
+}
+
+func runDec(c DecCase) (res ev.Result) {
+	if len(c.Recs) == 0 {
+		res.Skip = true
+		return
+	}
+	e := env()
+	res.Nontrivial = len(c.Recs) >= 2
+	type got struct {
+		ts  int32
+		msg []byte
+	}
+	var mu sync.Mutex
+	var recv []got
+	marker := []byte{0xFA, 0xFB, 0xFA, 0xFB, 0xFA}
+	seen := make(chan struct{}, 1)
+	var cab *cable.InCable
+	var stop func()
+	failed := ev.TryTimeout(ev.Watchdog, func() {
+		var err error
+		if cab, err = e.OpenIn(1); err != nil {
+			panic(fmt.Sprintf("opening the in-port: %v", err))
+		}
+		stop, err = e.Ins[1].Listen(func(b []byte, ts int32) {
+			mu.Lock()
+			recv = append(recv, got{ts, append([]byte{}, b...)})
+			mu.Unlock()
+			if bytes.Equal(b, marker) {
+				select {
+				case seen <- struct{}{}:
+				default:
+				}
+			}
+		}, drivers.ListenConfig{ActiveSense: true, TimeCode: true, SysEx: true, SysExBufferSize: 4096})
+		if err != nil {
+			panic(fmt.Sprintf("Listen on the open in-port: %v", err))
+		}
+		for _, r := range c.Recs {
+			if err := cab.Inject(r.TS, r.Msg); err != nil {
+				panic("harness: injecting a line: " + err.Error())
+			}
+		}
+		if err := cab.Inject(7, marker); err != nil {
+			panic("harness: injecting the marker: " + err.Error())
+		}
+	})
+	defer func() {
+		ev.TryTimeout(ev.Watchdog, func() {
+			if stop != nil {
+				stop()
+			}
+			if cab != nil {
+				cab.Close()
+			}
+			e.Ins[1].Close()
+		})
+	}()
+	if failed != "" {
+		res.Violation = failed
+		return
+	}
+	select {
+	case <-seen:
+	case <-time.After(60 * time.Second):
+		mu.Lock()
+		n := len(recv)
+		mu.Unlock()
+		res.Violation = fmt.Sprintf("the record injected last did not reach the listener within 60 s (%d of %d records arrived)", n, len(c.Recs)+1)
+		return
+	}
+	mu.Lock()
+	defer mu.Unlock()
+	for i := 0; i < len(recv)-1 || i < len(c.Recs); i++ {
+		switch {
+		case i >= len(recv)-1:
+			res.Violation = fmt.Sprintf("record %d (ts %d, %d bytes) was printed by the helper but never reached the listener (%d of %d arrived)", i, c.Recs[i].TS, len(c.Recs[i].Msg), len(recv)-1, len(c.Recs))
+			return
+		case i >= len(c.Recs):
+			res.Violation = fmt.Sprintf("the listener received %d records, the helper printed %d; extra: ts %d % X", len(recv)-1, len(c.Recs), recv[i].ts, clip(recv[i].msg))
+			return
+		case recv[i].ts != c.Recs[i].TS || !bytes.Equal(recv[i].msg, c.Recs[i].Msg):
+			res.Violation = fmt.Sprintf("record %d reached the listener as (ts %d, %d bytes: % X), the helper printed (ts %d, %d bytes: % X)", i, recv[i].ts, len(recv[i].msg), clip(recv[i].msg), c.Recs[i].TS, len(c.Recs[i].Msg), clip(c.Recs[i].Msg))
+			return
+		}
+	}
+	return
+}
+
+func genDec(t *rapid.T) DecCase {
+	var c DecCase
+	n := rapid.IntRange(1, 8).Draw(t, "nRecords")
+	for i := 0; i < n; i++ {
+		l := rapid.OneOf(
+			rapid.IntRange(1, 3),
+			rapid.IntRange(1, 40),
+			rapid.SampledFrom([]int{127, 128, 255, 256, 511, 512, 513, 1023, 1024, 1025, 2000}),
+			rapid.IntRange(1, 2000),
+		).Draw(t, "len")
+		m := rapid.SliceOfN(rapid.Byte(), l, l).Draw(t, "msg")
+		// first and last byte biased to the bytes that frame MIDI messages
+		if rapid.Bool().Draw(t, "statusFirst?") {
+			m[0] = rapid.SampledFrom([]byte{0xF0, 0xF0, 0x90, 0xF7, 0xB0, 0xFF}).Draw(t, "first")
+		}
+		if l > 1 && rapid.Bool().Draw(t, "f7Last?") {
+			m[l-1] = 0xF7
+		}
+		if len(m) == 5 && m[0] == 0xFA && m[1] == 0xFB {
+			m[1] = 0
+		}
+		if m[0] == 0xFE || m[0] == 0xF8 {
+			m[0] = 0x90 // keep the message outside the option filter's classes: options are all on anyway
+		}
+		ts := rapid.OneOf(rapid.Int32Range(0, 5000), rapid.Int32()).Draw(t, "ts")
+		c.Recs = append(c.Recs, DecRec{ts, m})
+	}
+	return c
+}
+
+var decoder = ev.NewCheck("C19", "driver-decoder",
+	"rapid: 1..8 records (any time stamp, messages of 1..2000 arbitrary bytes with lengths biased to 127/128, 255/256, 511..513, 1023..1025, 2000 and first/last bytes biased to F0 / F7 / channel status) printed line by line by the stand-in helper of an in-port of the process-backed driver; In.Listen with all options on; oracle: the listener is called exactly once per line, in order, with the line's time stamp and bytes (one record per line, nothing held back, glued or made up); a marker record printed last tells when everything has arrived (bounded wait of 60 s); non-trivial = >= 2 records; distinct by case hash",
+	genDec, runDec)
+
+func TestPropDriverDecoder(t *testing.T) {
+	defer closeEnv()
+	decoder.Rapid(t, 40, 800)
 }
